@@ -25,19 +25,24 @@ def tcp_pattern(topo, proto, up, origin, pattern, idle, tag):
     elif pattern == "trickle":
         # one direction only, a byte every 0.55 x period, for about 2.5 periods: must stay open meanwhile
         per = max(idle, 1) * 0.55
+        stamps = []
         for k in range(5):
             c.send(sc[sent["c2s"]:sent["c2s"] + 1])
+            stamps.append(time.time())
             sent["c2s"] += 1
             o.recv_some(timeout=1.0, want=1)
             time.sleep(per)
             if c.recv_some(timeout=0.01, want=1) == 0 and (c.eof or c.err):
                 break
         res["open_during_trickle"] = not (c.eof or c.err is not None)
+        res["trickle_max_gap"] = max([b - a for a, b in zip(stamps, stamps[1:])] + [time.time() - stamps[-1]])
     elif pattern == "trickle_s2c":
         # a download: only the origin sends, the client stays silent; the tunnel is not idle
         per = max(idle, 1) * 0.55
+        stamps = []
         for k in range(5):
             o.send(so[sent["s2c"]:sent["s2c"] + 1])
+            stamps.append(time.time())
             sent["s2c"] += 1
             c.recv_some(timeout=1.0, want=1)
             if c.eof or c.err is not None:
@@ -46,13 +51,14 @@ def tcp_pattern(topo, proto, up, origin, pattern, idle, tag):
             if o.recv_some(timeout=0.01, want=1) == 0 and (o.eof or o.err):
                 break
         res["open_during_trickle"] = not (c.eof or c.err is not None or o.eof or o.err is not None)
+        res["trickle_max_gap"] = max([b - a for a, b in zip(stamps, stamps[1:])] + [time.time() - stamps[-1]])
     elif pattern == "burst":
         c.send(sc[:10]); sent["c2s"] = 10
         o.recv_some(timeout=1.0, want=10)
         o.send(so[:10]); sent["s2c"] = 10
         c.recv_some(timeout=1.0, want=10)
     # now silence: wait for the proxy to close (or not)
-    wait = (idle + 3.5) if idle > 0 else 4.0
+    wait = (idle + 6.0) if idle > 0 else 4.0
     t_sil = time.time()
     end = t_sil + wait
     while time.time() < end and not (c.eof or c.err is not None):
@@ -200,7 +206,8 @@ def run(tier, t0):
                 v.report("idle/%s/%s" % ("not-closed" if r["expect_close"] else "closed-although-disabled", r["pattern"]),
                          {"tag": r["tag"], "configured_idle": eff_idle, "closed_after_s": r["closed_after_s"],
                           "relay_idle_ms": [e.get("idle_ms") for e in evs if e["ev"] == "relay_begin"]}, rep)
-            if r.get("open_during_trickle") is False:
+            # only conclusive when the driver really kept its gaps under the period (a busy machine may stretch a sleep)
+            if r.get("open_during_trickle") is False and r.get("trickle_max_gap", 0) < 0.8 * max(eff_idle, 1):
                 v.report("idle/closed-while-trickling", {"tag": r["tag"], "configured_idle": eff_idle}, rep)
         if lines:
             tp = os.path.join(wd, "idle_%s.ndjson" % tag)
